@@ -631,7 +631,7 @@ def corpus():
 
     return [
         # resolution: explicit, then unset (weighting on) / unset, explicit, unset / two explicit values / explicit None
-        [st(cross, rweight=-1.0, resolution=12), st(cross, rweight=-1.0)],
+        [st(cross, rweight=-0.5, resolution=9), st(cross, rweight=-0.5)],
         [st(rweight=1.0), st(rweight=1.0, resolution=3), st(rweight=1.0)],
         [st(rweight=-0.5, resolution=200), st(rweight=-0.5, resolution=5), st(rweight=-0.5, resolution=None)],
         [st(resolution=8), st(cross, rweight=2.0, rmin=[100.0, 400.0], rmax=[1500.0, 4000.0])],   # set without weighting first
@@ -653,7 +653,7 @@ def corpus():
         [st(cfg_workers=2, call_workers=3, exec="simpool", sched=5, rweight=-1.0, resolution=33), st(rweight=-1.0),
          st(cfg_workers=3, exec="realpool", rweight=-1.0)],
         # modify() on the previous configuration
-        [st(rweight=-1.0, resolution=12), st(rweight=-1.0, maker="modify"), st(maker="modify")],
+        [st(rweight=2.0, resolution=7), st(rweight=2.0, maker="modify"), st(maker="modify")],
     ]
 
 
